@@ -118,6 +118,11 @@ func verifBytes(tag string, n int) []byte {
 	return b
 }
 
+// verifVirtualBytes returns n zero bytes. In the engine the slice has a length
+// (which may be a solver variable) and no content: any use of the content stops
+// the path as unsupported. For code that depends on len(message) only.
+func verifVirtualBytes(n int) []byte { return make([]byte, n) }
+
 // verifIte and verifB2I are branch-free selections (one path in the engine).
 func verifIte(c bool, a, b int) int {
 	if c {
